@@ -176,6 +176,14 @@ static int op_beforenm(int argc, char **argv, FILE *o) {
     if (b[0].n != 32 || b[1].n != 32) { freeb(b, 2); return -1; }
     rc = strcmp(argv[0], "xsalsa") == 0 ? crypto_box_beforenm(k, b[0].p, b[1].p) : crypto_box_curve25519xchacha20poly1305_beforenm(k, b[0].p, b[1].p);
     if (rc != 0) fprintf(o, "%d", rc); else { fputs("0 ", o); hx_put_hex(o, k, 32); }
+    {   /* aliased call forms of a fixed-size API: the shared key written over the secret key / over the public key (e.g. an ephemeral key replaced by the shared key) */
+        unsigned char a1[32], a2[32]; int r1, r2, xs = strcmp(argv[0], "xsalsa") == 0;
+        memcpy(a1, b[1].p, 32); memcpy(a2, b[0].p, 32);
+        r1 = xs ? crypto_box_beforenm(a1, b[0].p, a1) : crypto_box_curve25519xchacha20poly1305_beforenm(a1, b[0].p, a1);
+        r2 = xs ? crypto_box_beforenm(a2, a2, b[1].p) : crypto_box_curve25519xchacha20poly1305_beforenm(a2, a2, b[1].p);
+        if (r1 != rc || (rc == 0 && memcmp(a1, k, 32))) fputs(" ALIAS-SK-DIFFERS", o);
+        if (r2 != rc || (rc == 0 && memcmp(a2, k, 32))) fputs(" ALIAS-PK-DIFFERS", o);
+    }
     freeb(b, 2); return 0;
 }
 const hx_op ops_c01[] = {
